@@ -127,6 +127,19 @@ class Gen:
         return fam, env
 
     # ------------------------------------------------------------------ component expressions
+    def ccond(self, comps):
+        """a component-level Boolean condition (the engine rejects if/case whose condition is a constant
+        while a branch is a component)."""
+        r = self.r
+        n, t = r.choice(comps)
+        if t == 'Boolean':
+            return n, '(col %s)' % name_sx(n)
+        if r.random() < 0.2:
+            return 'isnull(%s)' % n, '(un isnull (col %s))' % name_sx(n)
+        op, sxop = r.choice([('=', 'eq'), ('<>', 'ne'), ('<', 'lt'), ('<=', 'le'), ('>', 'gt'), ('>=', 'ge')])
+        v = self.small(t)
+        return '(%s %s %s)' % (n, op, vtl_const(v)), '(bin %s (col %s) (const %s))' % (sxop, name_sx(n), enc_value(v))
+
     def cexpr(self, comps, want, depth):
         """expression over the components of the current row of type `want` -> (vtl, sx)."""
         r = self.r
@@ -137,6 +150,33 @@ class Gen:
                 return n, '(col %s)' % name_sx(n)
             v = self.small(want)
             return vtl_const(v), '(const %s)' % enc_value(v)
+        if r.random() < 0.18:
+            # conditional operators at component level: if-then-else / case (the engine's documented
+            # priority is "last true condition wins": the model gets the equivalent nested ite)
+            c1 = self.ccond(comps)
+            a = self.cexpr(comps, want, depth - 1)
+            b = self.cexpr(comps, want, depth - 1)
+            if r.random() < 0.5:
+                return ('(if %s then %s else %s)' % (c1[0], a[0], b[0]), '(tern ite %s %s %s)' % (c1[1], a[1], b[1]))
+            c2 = self.ccond(comps)
+            d = self.cexpr(comps, want, depth - 1)
+            return ('(case when %s then %s when %s then %s else %s)' % (c1[0], a[0], c2[0], b[0], d[0]),
+                    '(tern ite %s %s (tern ite %s %s %s))' % (c2[1], b[1], c1[1], a[1], d[1]))
+        if want == 'Boolean' and r.random() < 0.2:
+            t = r.choice([t for _, t in comps if t in ('Integer', 'Number', 'String')] or ['Integer'])
+            x = self.cexpr(comps, t, depth - 1)
+            if r.random() < 0.5:
+                lo, hi = self.small(t), self.small(t)
+                return ('between(%s, %s, %s)' % (x[0], vtl_const(lo), vtl_const(hi)),
+                        '(tern between %s (const %s) (const %s))' % (x[1], enc_value(lo), enc_value(hi)))
+            vs = []
+            for _ in range(r.choice([1, 2, 3])):
+                v = self.small(t)
+                if v not in vs:
+                    vs.append(v)
+            neg = r.random() < 0.4
+            return ('(%s %s {%s})' % (x[0], 'not_in' if neg else 'in', ', '.join(vtl_const(v) for v in vs)),
+                    '(%s %s (%s))' % ('notin' if neg else 'in', x[1], ' '.join(enc_value(v) for v in vs)))
         if want in NUM:
             k = r.random()
             a = self.cexpr(comps, want, depth - 1)
@@ -248,7 +288,7 @@ class Gen:
             choices += ['calc', 'calc', 'rename', 'keepdrop']
             if len(node.ids) > 1:
                 choices += ['sub']
-        choices += ['setop', 'setop']
+        choices += ['setop', 'setop', 'ifd']
         if self.allow is not None and not kinds:
             choices = [c for c in choices if c in self.allow]
             if not choices:
@@ -417,6 +457,45 @@ class Gen:
             val = r.choice(ID_INT) if t == 'Integer' else r.choice(ID_STR)
             return Node('%s[sub %s = %s]' % (v, i, vtl_const(val)), '(sub %s ((%s %s)))' % (sx, name_sx(i), enc_value(val)),
                         [x for x in node.ids if x[0] != i], ms, node.ops + ('sub',))
+        if k == 'ifd':
+            # dataset-level if-then-else: the condition refers to components of a condition dataset
+            # (`DS#comp`, the form the engine supports); then/else are datasets with the structure of `node`
+            # or scalar constants
+            cands = [n for n, d in env.items() if d['ids'] == node.ids]
+            if not cands or not node.meas:
+                return None
+            cn = r.choice(cands)
+            cd = env[cn]
+            mname, mtype = r.choice(cd['meas'])
+            ref = '%s#%s' % (cn, mname)
+            if mtype == 'Boolean' and r.random() < 0.6:
+                cv, cs = ref, '(col %s)' % name_sx(mname)
+            elif r.random() < 0.25:
+                cv, cs = 'isnull(%s)' % ref, '(un isnull (col %s))' % name_sx(mname)
+            else:
+                op, sxop = r.choice([('=', 'eq'), ('<>', 'ne'), ('<', 'lt'), ('<=', 'le'), ('>', 'gt'), ('>=', 'ge')])
+                if mtype == 'Boolean':
+                    op, sxop = r.choice([('=', 'eq'), ('<>', 'ne')])
+                c = self.small(mtype)
+                cv, cs = '%s %s %s' % (ref, op, vtl_const(c)), '(bin %s (col %s) (const %s))' % (sxop, name_sx(mname), enc_value(c))
+            other = self.mat(self.leaf(env, like=node))
+            if other is None:
+                return None
+            shape = r.choice(['dd', 'dd', 'ds', 'sd'])
+            mt0 = node.mtypes()
+            sc_ok = len(set(mt0)) == 1
+            if shape != 'dd' and not sc_ok:
+                shape = 'dd'
+            a, b = (node, other) if r.random() < 0.5 else (other, node)
+            if shape == 'dd':
+                return Node('if %s then %s else %s' % (cv, a.vtl, b.vtl), '(ifd (ds %s) %s %s %s)' % (cn, cs, a.sx, b.sx),
+                            node.ids, node.meas, a.ops + b.ops + ('ifd',))
+            c = self.small(mt0[0])
+            if shape == 'ds':
+                return Node('if %s then %s else %s' % (cv, a.vtl, vtl_const(c)), '(ifd (ds %s) %s %s (sc %s))' % (cn, cs, a.sx, enc_value(c)),
+                            node.ids, node.meas, a.ops + ('ifd',))
+            return Node('if %s then %s else %s' % (cv, vtl_const(c), a.vtl), '(ifd (ds %s) %s (sc %s) %s)' % (cn, cs, enc_value(c), a.sx),
+                        node.ids, node.meas, a.ops + ('ifd',))
         if k == 'setop':
             other = self.leaf(env, like=node)
             if other is None:
